@@ -666,6 +666,9 @@ def poly_of(e, atomizer, depth=0):
 
 # ---------------------------------------------------------------- decision tables of loop-free bodies
 
+_STD_VARIANTS = {"None": 0, "Some": 1, "Ok": 0, "Err": 1, "Continue": 0, "Break": 1, "Less": 255, "Equal": 0, "Greater": 1}
+
+
 def decision_paths(fn, limit=400, with_calls=False, with_env=False):
     """Enumerate the acyclic entry→return paths of a loop-free body, evaluating assignments
     flow-sensitively into expression trees (parameters stay symbolic, calls stay opaque).
@@ -707,7 +710,10 @@ def decision_paths(fn, limit=400, with_calls=False, with_env=False):
                 else:
                     e = ("field", e, nm, el.get("of"))
             elif isinstance(el, dict) and "downcast" in el:
-                e = ("downcast", e, el["variant"] or el["downcast"])
+                if e[0] == "agg" and isinstance(e[1], str) and el.get("variant") and e[1].endswith("::" + el["variant"]):
+                    pass  # the value is known to be this variant: the downcast is the identity
+                else:
+                    e = ("downcast", e, el["variant"] or el["downcast"])
             elif isinstance(el, dict) and "index" in el:
                 e = ("index", e, ev_place({"l": el["index"], "p": []}, env))
             else:
@@ -739,7 +745,13 @@ def decision_paths(fn, limit=400, with_calls=False, with_env=False):
         if "un" in rv:
             return ("un", rv["un"], ev_op(rv["a"], env))
         if "discr" in rv:
-            return ("discr", ev_place(rv["discr"], env), rv.get("of"))
+            inner = ev_place(rv["discr"], env)
+            # discriminant of a value whose variant is known on this path (std enums): a constant
+            if inner[0] == "agg" and isinstance(inner[1], str):
+                head, _, var = inner[1].rpartition("::")
+                if var in _STD_VARIANTS and any(head.endswith(x) for x in ("option::Option", "result::Result", "ops::ControlFlow", "cmp::Ordering")):
+                    return ("const", _STD_VARIANTS[var], None, "isize")
+            return ("discr", inner, rv.get("of"))
         if "agg" in rv:
             ops = [ev_op(o, env) for o in rv["ops"]]
             k = rv["agg"]
@@ -834,7 +846,15 @@ def decision_paths(fn, limit=400, with_calls=False, with_env=False):
             name = t.get("resolved") or t.get("fn") or "?"
             d = t["dest"]
             if not d["p"]:
-                env[d["l"]] = ("call", name, args, t.get("fn"), (bb, d["l"]))
+                val = ("call", name, args, t.get("fn"), (bb, d["l"]))
+                # `x?` on a value whose variant is known on this path
+                if str(t.get("fn")).endswith("Try::branch") and args and args[0][0] == "agg" and isinstance(args[0][1], str):
+                    var = args[0][1].rsplit("::", 1)[-1]
+                    if var in ("Some", "Ok"):
+                        val = ("agg", "std::ops::ControlFlow::Continue", {"0": args[0][2].get("0", ("tuple", ()))})
+                    elif var in ("None", "Err"):
+                        val = ("agg", "std::ops::ControlFlow::Break", {"0": args[0]})
+                env[d["l"]] = val
             env["#calls"] = tuple(env.get("#calls", ())) + ((name, (bb, d["l"]), args),)
             if t["target"] is not None:
                 go(t["target"], env, conds, seen)
